@@ -13,8 +13,11 @@ import tlaval
 
 VERIF = os.path.dirname(os.path.dirname(os.path.abspath(__file__)))
 REPO = os.environ.get('VERIF_REPO', '/repo')
-WORK = os.path.join(VERIF, '.work')
-HARNESS = os.path.join(VERIF, 'harness')
+# VERIF_ALT=<scratch dir> (with VERIF_REPO=<another tree>) runs a check against a different tree without touching
+# /verif/.work, the harness build or the replays of a run on /repo: used by tools/seed_matrix.py --alt
+ALT = os.environ.get('VERIF_ALT')
+WORK = os.path.join(ALT or VERIF, '.work')
+HARNESS = os.path.join(ALT or VERIF, 'harness')
 BIN = os.path.join(HARNESS, 'pdverif')
 NCPU = os.cpu_count() or 4
 
@@ -36,6 +39,10 @@ def log(*a):
 def build_harness():
     """(Re)build the harness binary against /repo's current working tree, with hooks on."""
     t0 = time.time()
+    if ALT:
+        os.makedirs(HARNESS, exist_ok=True)
+        subprocess.check_call(['rsync', '-a', '--delete', '--exclude', '/pdverif', '--exclude', '/go.mod', '--exclude', '/go.sum',
+                               os.path.join(VERIF, 'harness') + '/', HARNESS + '/'])
     shutil.copyfile(os.path.join(REPO, 'go.sum'), os.path.join(HARNESS, 'go.sum'))
     # go.mod is regenerated so that the replace directive always points at the repo in use
     tmpl = open(os.path.join(HARNESS, 'go.mod.tmpl')).read()
@@ -404,7 +411,7 @@ class Ctx:
                 self.known_hits[f['id']] = self.known_hits.get(f['id'], 0) + 1
                 return
         # unknown -> bundle
-        rd = os.path.join(VERIF, 'replays', self.pid, '%s-%d-%s' % (self.tier, self.seed, label or 'v%d' % len(self.violations)))
+        rd = os.path.join(ALT or VERIF, 'replays', self.pid, '%s-%d-%s' % (self.tier, self.seed, label or 'v%d' % len(self.violations)))
         shutil.rmtree(rd, ignore_errors=True)
         os.makedirs(rd)
         if trace_path and os.path.exists(trace_path):
